@@ -68,6 +68,7 @@ THEOREMS = [
     "OllamaVerif.C06.refines_total_nonvacuous",
     "OllamaVerif.C06.specStepT_perm",
     "OllamaVerif.C06.window_exact_append_only",
+    "OllamaVerif.C06.window_exact_append_only_ops",
     "OllamaVerif.C06.runS_visible_eq_runI",
     "OllamaVerif.C06.specSlide_invisible_of_le",
     "OllamaVerif.C06.window_exact_nonvacuous",
